@@ -36,6 +36,7 @@ LEVEL_NOTE = "Trusts the step observer (live WORKING vs displayed READY on absen
 CFG_A = gen.Cfg(warm=4, facilities=True, max_time=[40, 80], float_mode=8, abs_max=14, abs_p=2, abs_size=6)
 CFG_B = gen.Cfg(
     servable=3,
+    rules=[0, 1, 2, 3, 4, 4, 4, 4, 5, 6, 7, 8],  # FIFO counts log entries: the rule most exposed to absence steps
     facilities=True,
     worker_abs=False,
     auto_with_component=False,
@@ -107,10 +108,7 @@ def check(spec):
         res.stats["relation_B_runs"] += 1
         if d1 != d2:
             diffs = S.diff_dumps(d1, d2)
-            sig = diffs[0].split(":")[0].strip("/").split("/")[0] if diffs else ""
-            if diffs and "/" in diffs[0]:
-                parts = diffs[0].split(":")[0].strip("/").split("/")
-                sig = parts[0] + ("." + parts[2].split("[")[0] if len(parts) > 2 else "")
+            sig = "rule_FIFO" if spec["opts"]["rule"] == 4 else ""
             res.fail(
                 "C10.remove_equals_absence_free",
                 "after remove_absence_time_list() the result differs from the absence-free run: %s" % "; ".join(diffs[:3]),
